@@ -6,7 +6,7 @@
      c14_is : the observed answers are acceptable to the specification side (Sem/OpsSpec.v) AND the
               laws hold between the observed answers themselves (symmetry, negation, flip, <= is
               < or =, >= is flipped <=, transitivity). *)
-From P2 Require Import Base.Prelude Sem.Num Sem.Syntax Sem.Ops Sem.Lib Sem.OpsSpec.
+From P2 Require Import Base.Prelude Sem.Num Sem.Syntax Sem.Ops Sem.Lib Sem.OpsSpec Sem.OrderSwitch.
 Local Open Scope N_scope.
 
 (* what the implementation answered *)
@@ -71,17 +71,6 @@ Definition calc_repr (present : bool) (op : name) (a b : value) : res value :=
     end
   else calc op a b.
 
-(* switch x case c1: 1 case c2: 2 ... default 0, as GenerateFunc's loop over the cases with g.isEqual *)
-Fixpoint switch_model (x : value) (cs : list value) (n : N) : res N :=
-  match cs with
-  | [] => Ok 0
-  | c :: cs' => match equal_fg x c with
-                | Ok true => Ok n
-                | Ok false => switch_model x cs' (N.succ n)
-                | Err t => Err t | Panic => Panic | OOF => OOF | Unsup => Unsup
-                end
-  end.
-
 Definition agree_n (m : res N) (o : obs) : bool :=
   match m, o with
   | Ok x, ON y => x =? y
@@ -90,40 +79,10 @@ Definition agree_n (m : res N) (o : obs) : bool :=
   | _, _ => false
   end.
 
-(* l.order(x->x): List.Order copies the items and calls sort.Sort with Less(i,j) = fg.less(item i, item j);
-   an error of fg.less is remembered (the first one), Less answers false, and the error is returned
-   after the sort.  For at most 12 elements sort.Sort (pdqsort) IS this insertion sort:
-     for i := 1; i < n; i++ { for j := i; j > 0 && Less(j, j-1); j-- { Swap(j, j-1) } }
-   Longer lists are outside this model (Unsup). *)
-Fixpoint order_ins (x : value) (rev_done right : list value) (err : bool) : res (list value * bool) :=
-  match rev_done with
-  | [] => Ok (x :: right, err)
-  | y :: rd' =>
-      match vless x y with
-      | Ok true => order_ins x rd' (y :: right) err               (* Swap(j, j-1), go on to the left *)
-      | Ok false => Ok (rev rev_done ++ x :: right, err)
-      | Err _ | Panic => Ok (rev rev_done ++ x :: right, true)    (* Less = false, error registered *)
-      | OOF => OOF | Unsup => Unsup
-      end
-  end.
-
-Fixpoint order_loop (done todo : list value) (err : bool) : res (list value * bool) :=
-  match todo with
-  | [] => Ok (done, err)
-  | x :: todo' =>
-      match order_ins x (rev done) [] err with
-      | Ok (done', err') => order_loop done' todo' err'
-      | Err t => Err t | Panic => Panic | OOF => OOF | Unsup => Unsup
-      end
-  end.
-
-Definition order_model (l : list value) : res value :=
-  if Nat.ltb 12 (length l) then Unsup else
-  match order_loop [] l false with
-  | Ok (out, false) => Ok (VList out)
-  | Ok (_, true) => Err None
-  | Err t => Err t | Panic => Panic | OOF => OOF | Unsup => Unsup
-  end.
+(* order: the insertion-sort model (Sem/OrderSwitch.v order_model) is what sort.Sort does for at most 12
+   elements; longer lists (pdqsort, not modelled) are judged by the checker order_allowed alone *)
+Definition order_model12 (l : list value) : res value :=
+  if Nat.ltb 12 (length l) then Unsup else order_model l.
 
 (* observations of one direction: = != < > <= >=, then min(a,b), max(a,b), switch a case b, [a,b].order *)
 Definition dir_im (a b : value) (o : list obs) : bool :=
@@ -134,7 +93,7 @@ Definition dir_im (a b : value) (o : list obs) : bool :=
       && agree_bool (calc op_le a b) o5 && agree_bool (calc op_ge a b) o6
       && agree_val [a; b] (run_static n_min [a; b]) omin && agree_val [a; b] (run_static n_max [a; b]) omax
       && agree_n (switch_model a [b] 1) osw
-      && agree_val [a; b] (order_model [a; b]) oord
+      && agree_val [a; b] (order_model12 [a; b]) oord
   | _ => false
   end.
 
@@ -146,7 +105,7 @@ Definition triple_im (a b c : value) (o : list obs) : bool :=
       agree_val [a; b; c] (run_static n_min [a; b; c]) omin && agree_val [a; b; c] (run_static n_max [a; b; c]) omax
       && agree_val [a; b; c] (pick_min a [b; c]) olmin && agree_val [a; b; c] (pick_max a [b; c]) olmax
       && agree_n (switch_model a [b; c] 1) osw
-      && agree_val [a; b; c] (order_model [a; b; c]) oord
+      && agree_val [a; b; c] (order_model12 [a; b; c]) oord
       && agree_bool (calc op_lt a b) l1 && agree_bool (calc op_lt b c) l2 && agree_bool (calc op_lt a c) l3
       && agree_bool (calc op_eq a b) e1 && agree_bool (calc op_eq b c) e2 && agree_bool (calc op_eq a c) e3
   | _ => false
@@ -160,7 +119,7 @@ Definition c14_im (pool : list value) (c : c14_case) : bool :=
   | CMem _ i j pj o => agree_bool (calc_repr pj op_in (getv pool i) (getv pool j)) o
   | CMem2 _ i j k o => agree_bool (calc op_in (getv pool i) (VList [getv pool j; getv pool k])) o
   | CTriple _ i j k o => triple_im (getv pool i) (getv pool j) (getv pool k) o
-  | COrder _ ix o => let l := map (getv pool) ix in agree_val l (order_model l) o
+  | COrder _ ix o => let l := map (getv pool) ix in agree_val l (order_model12 l) o
   end.
 
 (* ---------- representation independence (run-level specification) ----------
